@@ -8,6 +8,8 @@ import (
 	"fmt"
 	"math/big"
 	"sort"
+	"strconv"
+	"strings"
 	"sync"
 	"sync/atomic"
 	"testing"
@@ -135,6 +137,7 @@ type c26Ctx struct {
 	maxComp   int64
 	expanding int64 // blooms whose compressed form is LONGER than 256 bytes
 	bands     [8]int64
+	histories int64
 }
 
 // C26Case is the replayable form of one case.
@@ -467,7 +470,7 @@ func TestVerifC26(t *testing.T) {
 	}
 	pairN := r.Pick(nU4, len(c.uni))
 	bitsN := r.Pick(1<<13, 1<<17)
-	r.Rule(fmt.Sprintf("logs = address in {hx1,cx2,cx3} x indexed list of length 1..3 over {signature, 21 address bytes, 00, nil} (%d logs) plus the lists using an empty non-nil value (%d logs in all). 'set' cases: every single log of all %d, every unordered pair of the first %d logs, every unordered triple of %d logs (2 addresses, lists of length<=2 quick / <=3 thorough); each set in EVERY order and EVERY split of the ordered list into consecutive receipts (one bloom per receipt via AddLog, block bloom via Merge), block bloom queried for each log's address, each non-nil indexed value at its position and their conjunction, directly and after compressed/bytes/logbytes/RLP/JSON/foreign-merge forms; 'receipt' cases: every single log and every pair (thorough: all enumerated pairs; quick: pairs of the %d-log sub-universe) through the real receipt object in versions 1,2,3, its binary form decoded again, and its JSON form where representable; 'bits' cases: one-value logs with the value a 3-byte counter 0..%d; 'dense' cases: 4 deterministic log families (distinct/one address, 4/2 indexed values, nil position) x 3 receipt structures (receipt per log, one receipt, receipts of 7), cumulative block bloom after EVERY log 1..N_dense: all storage forms equal and mutually containing, every contributing log's address / values / conjunction found directly and after the compressed form, and at the checkpoint counts in every form and through real receipts v1/v2/v3 holding all logs; 'pattern' cases: blooms constructed directly with k set bits, every k in 0..2048, patterns low/high/scattered(SHA3 order)/stride-3/complement-of-scattered: all forms equal, single set bits still found in every form. non-trivial = distinct case (kind + logs / counter / family,structure,n / pattern,k)", nU4, len(c.uni), len(c.uni), pairN, len(tripleIDs), len(sub), bitsN-1))
+	r.Rule(fmt.Sprintf("logs = address in {hx1,cx2,cx3} x indexed list of length 1..3 over {signature, 21 address bytes, 00, nil} (%d logs) plus the lists using an empty non-nil value (%d logs in all). 'set' cases: every single log of all %d, every unordered pair of the first %d logs, every unordered triple of %d logs (2 addresses, lists of length<=2 quick / <=3 thorough); each set in EVERY order and EVERY split of the ordered list into consecutive receipts (one bloom per receipt via AddLog, block bloom via Merge), block bloom queried for each log's address, each non-nil indexed value at its position and their conjunction, directly and after compressed/bytes/logbytes/RLP/JSON/foreign-merge forms; 'receipt' cases: every single log and every pair (thorough: all enumerated pairs; quick: pairs of the %d-log sub-universe) through the real receipt object in versions 1,2,3, its binary form decoded again, and its JSON form where representable; 'bits' cases: one-value logs with the value a 3-byte counter 0..%d; 'dense' cases: 4 deterministic log families (distinct/one address, 4/2 indexed values, nil position) x 3 receipt structures (receipt per log, one receipt, receipts of 7), cumulative block bloom after EVERY log 1..N_dense: all storage forms equal and mutually containing, every contributing log's address / values / conjunction found directly and after the compressed form, and at the checkpoint counts in every form and through real receipts v1/v2/v3 holding all logs; 'pattern' cases: blooms constructed directly with k set bits, every k in 0..2048, patterns low/high/scattered(SHA3 order)/stride-3/complement-of-scattered: all forms equal, single set bits still found in every form. 'history' cases: ONE bloom object through every operation sequence of length 1..L (L=3 quick, 4 thorough) over the alphabet {AddLog(2 addresses x 2 topic sets), AddAddressOfLog x2, AddIndexedOfLog, Merge(*LogsBloom), Merge(foreign), SetInt64(0), SetUint64(0), SetBytes(nil / other / own saved), SetCompressedBytes(other), Set(other), SetBits(other), SetString(other), SetBit, queries (CompressedBytes, Bytes, LogBytes, String, Contain, Equal), JSON and RLP encode->decode into itself, JSON / RLP decode of another bloom} (every Set* method promoted from big.Int, found by reflection, is in the alphabet); model = item set implied by the history; the object, its compress/decompress form and a block bloom merged from it must report every model item and equal bit for bit a FRESH bloom built from the model. non-trivial = distinct case (kind + logs / counter / family,structure,n / pattern,k / op sequence)", nU4, len(c.uni), len(c.uni), pairN, len(tripleIDs), len(sub), bitsN-1))
 	r.Assume("a log with zero indexed entries is outside the alphabet: the code adds nothing for it, and real event logs always carry the signature at position 0", "the oracle needs no reference bloom: it only asks Contain; byte-equality across merge orders is asserted in addition")
 
 	if ev.Replaying() {
@@ -481,6 +484,14 @@ func TestVerifC26(t *testing.T) {
 			var fam, st int
 			fmt.Sscanf(cs.Note, "%d/%d", &fam, &st)
 			c.denseSeries(fam, st, cs.V, nil, cs.V)
+		case "history":
+			ops := c26HistOps()
+			var seq []int
+			for _, f := range strings.Split(cs.Note, ",") {
+				o, _ := strconv.Atoi(f)
+				seq = append(seq, o)
+			}
+			c.historyCase(ops, seq)
 		case "pattern":
 			var pat int
 			fmt.Sscanf(cs.Note, "%d", &pat)
@@ -603,6 +614,15 @@ func TestVerifC26(t *testing.T) {
 		r.Nontrivial(fmt.Sprintf("pattern/%d/%d", pat, k))
 		r.Eval(1)
 	})
+
+	// object-history family: all operation sequences up to histLen on ONE bloom object
+	histLen := r.Pick(3, 4)
+	if c.historyFamily(histLen, r.Expired) {
+		atomic.AddInt64(&skipped, 1)
+	}
+	r.Set("history_max_len", histLen)
+	r.Set("cases_history", c.histories)
+	r.Sanity(skipped > 0 || c.histories > 0, "no object-history case ran")
 
 	covered, minHits := 0, int32(1<<30)
 	for _, h := range cover {
